@@ -95,6 +95,10 @@ def scenarios(rng, quick):
                 and not sc.name.endswith("-ttl"):
             sc.extra.setdefault("errors", ["EA", "EB", "E"])
             out.append(sc)
+    # the witnesses of the findings of the fan-out protocol model: a later failure of a nested state re-failing the
+    # enclosing one; three levels of nesting; the back stop ending the execution under a stalled top-level event
+    have = {sc.name for sc in out}
+    out += [w for w in engine_props.fan_witnesses() if w.name not in have]
     return out
 
 
@@ -143,7 +147,7 @@ class expect(object):
     @staticmethod
     def post(scn, fv, pre, m):
         probs = []
-        if m is not None:
+        if m is not None and "TimeoutSeconds" not in scn.machine:      # (the reference semantics has no execution time limit)
             mv = c01.model_view(m)
             if mv["status"] in ("SUCCEEDED", "FAILED"):
                 if fv.get("status") != mv["status"]:
@@ -173,7 +177,10 @@ def run(chk):
               "reply-delay profiles; Map of 3 items with every listed failure set x MaxConcurrency 0-2 x with/without Catch; nested "
               "Parallel-in-Parallel with inner caught / inner uncaught / outer failure / both; each under the canonical and seeded "
               "random schedules; after every step: one terminal notification, record frozen, nothing appended to history after the "
-              "terminal event, ack ledger and ordering, drained at rest; at the end: outcome vs Asl.run, no task request after failure"))
+              "terminal event, ack ledger and ordering, drained at rest; at the end: outcome vs Asl.run, no task request after failure; "
+              "C06.matches_fan_protocol: every run (Map batches excepted) abstracted into the alphabet of the Lean protocol model of nested "
+              "fan-out attempts and compared with it after every step (join state and outputs); witnesses of the open findings C06-F3/F4/F5 "
+              "(nested failure after a handled failure, three levels of nesting, back stop under a stalled top-level event)"))
 
 
 def replay(chk, path):
